@@ -312,16 +312,12 @@ Fixpoint groups_eqb (a b : list (Z * list Z)) : bool :=
   | (k1, v1) :: a', (k2, v2) :: b' => (k1 =? k2) && zlist_eqb v1 v2 && groups_eqb a' b'
   | _, _ => false
   end.
-Definition closed_ok_g (k : nat) (seed : N) (mode : Z) (data : list Z) : bool :=
+Definition closed_ok_g (k : nat) (seed : N) (mode : Z) (data : list Z) (m : list (list Z)) : bool :=
   let parts := parts_of mode data in
-  zlist_eqb (sample_parts k seed parts) (topk_fast k seed parts) &&
-  zlist_eqb (sample_parts k seed parts) (topk_spec k seed parts).
-Definition closed_ok_k (k : nat) (seed : N) (mode : Z) (data : list (Z * Z)) : bool :=
-  let parts := parts_of mode data in
-  groups_eqb (ksort (keyed_parts Z.eqb k seed parts))
-             (ksort (keyed_topk Z.eqb topk_fast k seed parts)) &&
-  groups_eqb (ksort (keyed_unfused_parts Z.eqb k seed parts))
-             (ksort (keyed_topk_unfused Z.eqb topk_fast k seed parts)).
+  if lists_eqb m [topk_fast k seed parts] then
+    (* the N-valued stream costs as much as the operational model: short inputs only *)
+    if Nat.leb (List.length data) 8 then lists_eqb m [topk_spec k seed parts] else true
+  else false.
 
 (* route 0: the per-key sample is collected directly (planner lifts GroupByKey + CombineValues);
    route >= 1: it feeds a join (1 = left input of join_inner, 2 = left input of join_left,
@@ -338,6 +334,16 @@ Definition fast_keyed_route (route : Z) (k : nat) (seed : N) (mode : Z) (data : 
   let parts := parts_of mode data in
   ksort (if route =? 0 then keyed_topk Z.eqb topk_fast k seed parts
          else keyed_topk_unfused Z.eqb topk_fast k seed parts).
+
+Definition closed_ok_k (route : Z) (k : nat) (seed : N) (mode : Z) (data : list (Z * Z))
+           (m : list (Z * list Z)) : bool :=
+  if groups_eqb m (fast_keyed_route route k seed mode data) then
+    if Nat.leb (List.length data) 8 then
+      groups_eqb m (ksort (let parts := parts_of mode data in
+                           if route =? 0 then keyed_topk Z.eqb topk_spec k seed parts
+                           else keyed_topk_unfused Z.eqb topk_spec k seed parts))
+    else true
+  else false.
 
 Fixpoint krows_agree (entry : Z) (exp : list (Z * list Z)) (obs : list (Z * list Z * bool)) : bool :=
   match exp with
@@ -374,6 +380,24 @@ Fixpoint krows_eqb (a b : list (Z * list Z * bool)) : bool :=
   | _, _ => false
   end.
 
+(* distinct keys, ascending (vm_compute is call-by-value: [existsb] does not stop early, so the
+   scan is written with an explicit conditional) *)
+Fixpoint zmem (x : Z) (l : list Z) : bool :=
+  match l with [] => false | y :: r => if x =? y then true else zmem x r end.
+Definition keys_big (d : list (Z * Z)) : list Z :=
+  zsort (fold_left (fun acc kv => if zmem (fst kv) acc then acc else fst kv :: acc) d []).
+
+(* the primitive-integer stream of [topk_fast] against the N-valued stream of the model, at a few
+   positions spread over the whole length (jump-ahead: Props/C14.v c14_stream_jump_ahead) *)
+Definition stream_spot_ok (seed : N) (n : nat) : bool :=
+  let st := stream_state0 seed in
+  let ws := w_stream n (w_of_N st) in
+  forallb (fun j => match nth_error ws j with
+                    | Some p => N.eqb (Z.to_N (Uint63.to_Z p)) (prio_at st (N.of_nat j))
+                    | None => Nat.leb n j
+                    end)
+          [0; 1; 2; n / 7; n / 3; n / 2; (2 * n) / 3; n - 2; n - 1]%nat.
+
 (* inputs up to this size are also run through the operational model *)
 Definition small_limit : nat := 40.
 
@@ -385,8 +409,9 @@ Definition check_C14 (kind : string) (input output : J) : verdict :=
         match dec_k jk, dec_seed js, jints jd with
         | Some kz, Some seed, Some data =>
             let k := clamp_k kz (List.length data) in
-            let m := model_g entry k seed mode data in
-            if negb (closed_ok_g k seed mode data) then malformed else
+            let mv := m_global_vec k seed mode data in
+            let m := if entry =? 0 then JL (map enc_ints mv) else enc_ints (List.concat mv) in
+            if negb (closed_ok_g k seed mode data mv) then malformed else
             ok_verdict (jeqb r1 m && jeqb r2 m)
                        (prop_g entry k data r1 && prop_g entry k data r2 && jeqb r1 r2)
         | _, _, _ => malformed
@@ -400,8 +425,10 @@ Definition check_C14 (kind : string) (input output : J) : verdict :=
         match dec_k jk, dec_seed js, dec_pairs jd with
         | Some kz, Some seed, Some data =>
             let k := clamp_k kz (List.length data) in
-            let m := model_k entry k seed mode data in
-            if negb (closed_ok_k k seed mode data) then malformed else
+            let mv := m_keyed_vec k seed mode data in
+            let m := if entry =? 0 then JL (map enc_group mv)
+                     else JL (map enc_pair (flatten_keyed mv)) in
+            if negb (closed_ok_k 0 k seed mode data mv) then malformed else
             ok_verdict (jeqb r1 m && jeqb r2 m)
                        (prop_k entry k data r1 && prop_k entry k data r2 && jeqb r1 r2)
         | _, _, _ => malformed
@@ -452,8 +479,10 @@ Definition check_C14 (kind : string) (input output : J) : verdict :=
         match dec_k jk, dec_seed js, dec_pairs jd with
         | Some kz, Some seed, Some data =>
             let k := clamp_k kz (List.length data) in
-            let m := model_j entry route k seed mode data in
-            if negb (closed_ok_k k seed mode data) then malformed else
+            let mv := m_keyed_route route k seed mode data in
+            let m := if entry =? 0 then JL (map enc_group mv)
+                     else JL (map enc_pair (flatten_keyed mv)) in
+            if negb (closed_ok_k route k seed mode data mv) then malformed else
             ok_verdict (jeqb r1 m && jeqb r2 m)
                        (prop_k entry k data r1 && prop_k entry k data r2 && jeqb r1 r2)
         | _, _, _ => malformed
@@ -471,8 +500,10 @@ Definition check_C14 (kind : string) (input output : J) : verdict :=
             let k := clamp_k kz (Z.to_nat n) in
             let parts := parts_of mode data in
             let s := topk_fast k seed parts in
-            if Nat.leb (Z.to_nat n) small_limit && negb (closed_ok_g k seed mode data)
+            if (if Nat.leb (Z.to_nat n) small_limit
+                then negb (closed_ok_g k seed mode data (m_global_vec k seed mode data)) else false)
             then malformed else
+            if negb (stream_spot_ok seed (Z.to_nat n)) then malformed else
             let e := digest s in
             ok_verdict (sh1 && sh2 && zlist_eqb d1 e && zlist_eqb d2 e)
                        (sh1 && sh2 && good_digest kz data d1 sub1 && good_digest kz data d2 sub2 &&
@@ -489,9 +520,13 @@ Definition check_C14 (kind : string) (input output : J) : verdict :=
         | Some kz, Some seed, Some data, Some rows1, Some rows2 =>
             let n := fold_left (fun n _ => S n) data O in
             let k := clamp_k kz n in
-            if Nat.leb n small_limit && negb (closed_ok_k k seed mode data) then malformed else
+            if (if Nat.leb n small_limit
+                then negb (closed_ok_k route k seed mode data (m_keyed_route route k seed mode data))
+                else false)
+            then malformed else
+            if negb (stream_spot_ok seed n) then malformed else
             let e := fast_keyed_route route k seed mode data in
-            let keys := keys_of data in
+            let keys := keys_big data in
             ok_verdict (krows_agree entry e rows1 && krows_agree entry e rows2)
                        (krows_good entry kz data keys rows1 && krows_good entry kz data keys rows2 &&
                         krows_eqb rows1 rows2)
